@@ -253,7 +253,7 @@ def make_case(rng):
 def make_negative(rng):
     g = layout.LayoutGen(rng, exact=True, use_prev=False, shapes=["rect", "circle", "box"]).build(rng.choice([2, 3, 4]))
     items = [[e.id, e.render(), [], "layout"] for e in g.els]
-    k = rng.choice(["unknown-id", "cycle", "self", "no-bbox"])
+    k = rng.choice(["unknown-id", "cycle", "self", "no-bbox", "no-bbox-in-list"])
     ref = rng.choice(["xy=\"#%s|h\" wh=\"2\"", "wh=\"#%s\"", "surround=\"#%s\"", "xy=\"{{#%s~x2}} 0\" wh=\"2\"", "cxy=\"#%s@c\" r=\"2\""])
     shape = "circle" if "r=" in ref else "rect"
     if k == "unknown-id":
@@ -263,6 +263,13 @@ def make_negative(rng):
         items.append(["z2", '  <%s id="z2" %s/>' % (shape, ref % "z1"), [], "neg"])
     elif k == "self":
         items.append(["z1", '  <%s id="z1" %s/>' % (shape, ref % "z1"), [], "neg"])
+    elif k == "no-bbox-in-list":
+        # the boxless target is one of several listed elements: it must not be silently left out
+        items.append(["z2", '  <%s id="z2"/>' % rng.choice(["rect", "circle", "g", "title"]), [], "neg"])
+        other = rng.choice(g.els).id
+        lst = ["#z2", "#" + other]
+        rng.shuffle(lst)
+        items.append(["z1", '  <%s id="z1" %s="%s"/>' % (rng.choice(["rect", "circle"]), rng.choice(["surround", "surround", "inside"]), " ".join(lst)), [], "neg"])
     else:
         items.append(["z2", '  <%s id="z2"/>' % rng.choice(["rect", "circle", "defs", "g", "title"]), [], "neg"])
         items.append(["z1", '  <%s id="z1" %s/>' % (shape, ref % "z2"), [], "neg"])
